@@ -92,7 +92,8 @@ impl Problem {
                 Some(Compiled { p: self.clone(), dim, a: None, m: None, minv: None, lipschitz: l, growth: 0.0, cond: 1.0, rate: om.iter().cloned().fold(l, f64::max) })
             }
             Problem::Sep { r, .. } => {
-                let l = 2.0 * r.iter().cloned().fold(0.0, f64::max).max(0.05);
+                // logistic on (0,1): |f'| <= r; -r y^2 with 0 < y <= 1.8: |f'| <= 3.6 r
+                let l = 4.0 * r.iter().cloned().fold(0.0, f64::max).max(0.05);
                 Some(Compiled { p: self.clone(), dim, a: None, m: None, minv: None, lipschitz: l, growth: 0.0, cond: 1.0, rate: l })
             }
             Problem::Generic { al, be, ga, om, nu } => {
